@@ -36,6 +36,14 @@ theorem written_number_value (s : Instr) (n k : Nat) (hn : n < 2 ^ 64) :
   ⟨⟨_, immTok_dec s n hn, rfl, rfl⟩, ⟨_, immTok_hex s k n hn, rfl, rfl⟩,
    ⟨_, immTok_neg_dec s n hn, rfl⟩, ⟨_, immTok_neg_hex s k n hn, rfl⟩⟩
 
+/-- **decimal numerals with leading zeros** are the same decimal number (base 10 is fixed, a leading 0 does not select octal) -/
+theorem written_number_value_padded (s : Instr) (n k : Nat) (hn : n < 2 ^ 64) :
+    (∃ r, immTok s (decDigs k n) = .ok r ∧ r.cons = n ∧ r.imm = true) ∧
+    (∃ r, immTok s (45 :: decDigs k n) = .ok r ∧ r.cons = (2 ^ 64 - n) % 2 ^ 64) :=
+  ⟨⟨_, immTok_dec_pad s k n hn, rfl, rfl⟩, ⟨_, immTok_neg_dec_pad s k n hn, rfl⟩⟩
+
+example : decDigs 2 127 = [48, 48, 49, 50, 55] := by decide
+
 theorem imm_field_reads_back (c k : Nat) (h : c < 2 ^ 64) : leVal (assembleConst c ++ List.replicate k 0) = c :=
   leVal_assembleConst c h k
 
